@@ -25,7 +25,7 @@ AbsFloor  == "1E-290"      \* anything below is "both below the smallest normal 
 
 Near(q, thr) == RWithin(q, thr, thr ** GuardRel)
 
-K(v, m, n, g) == [v |-> v, m |-> m, n |-> n, g |-> g]
+KRec(v, m, n, g) == [v |-> v, m |-> m, n |-> n, g |-> g]
 
 ---------------------------------------------------------------------------
 \* exact forms
@@ -51,33 +51,33 @@ VDoc(x, t) ==
   LET xt  == x -- t
       den == RPhi(xt)
   IN  IF RLt(den, Eps)
-        THEN K(RNeg(xt), RAbs(xt), AbsFloor, Near(den, Eps))
-        ELSE LET v == RPdf(xt) // den IN K(v, v, AbsFloor, Near(den, Eps))
+        THEN KRec(RNeg(xt), RAbs(xt), AbsFloor, Near(den, Eps))
+        ELSE LET v == RPdf(xt) // den IN KRec(v, v, AbsFloor, Near(den, Eps))
 
 WDoc(x, t) ==
   LET xt  == x -- t
       den == RPhi(xt)
   IN  IF RLt(den, Eps)
-        THEN K("1", "1", AbsFloor, Near(den, Eps))
+        THEN KRec("1", "1", AbsFloor, Near(den, Eps))
         ELSE LET v == RPdf(xt) // den
-             IN  K(v ** (v ++ xt), v ** (v ++ RAbs(xt)), AbsFloor, Near(den, Eps))
+             IN  KRec(v ** (v ++ xt), v ** (v ++ RAbs(xt)), AbsFloor, Near(den, Eps))
 
 VtAsym(x, t) == IF RNegative(x) THEN RNeg(x) -- t ELSE RNeg(x) ++ t
 
 VtDoc(x, t) ==
   LET b == Band(x, t)
   IN  IF RLt(b, BandGuard)
-        THEN K(VtAsym(x, t), RAbs(x) ++ t, AbsFloor, Near(b, BandGuard))
+        THEN KRec(VtAsym(x, t), RAbs(x) ++ t, AbsFloor, Near(b, BandGuard))
         ELSE LET v == VtExact(x, t)
-             IN  K(v, RAbs(v), "1E-15" // t, Near(b, BandGuard))
+             IN  KRec(v, RAbs(v), "1E-15" // t, Near(b, BandGuard))
 
 WtDoc(x, t) ==
   LET b == Band(x, t)
   IN  IF RLt(b, Eps)
-        THEN K("1", "1", AbsFloor, Near(b, Eps))
+        THEN KRec("1", "1", AbsFloor, Near(b, Eps))
         ELSE LET vt == VtDoc(x, t)
                  bt == WtBandTerm(x, t)
-             IN  K(bt ++ (vt.v ** vt.v),
+             IN  KRec(bt ++ (vt.v ** vt.v),
                    RAbs(bt) ++ (vt.m ** vt.m),
                    ("1E-13" // t) ++ ((R2(vt.m) ++ vt.n) ** vt.n),
                    Near(b, Eps) \/ vt.g)
